@@ -282,6 +282,21 @@ func TestC05(t *testing.T) {
 		}
 
 		// Expected deliveries (reference model over the rewritten stream).
+		// Frames sealed after the sender's sequence number wrapped belong to the
+		// next key epoch (only with a link placed near the wrap). The receiver
+		// moves to that epoch when it authenticates a low-numbered frame of it
+		// while its own newest number is within 255 of the wrap; frames of the old
+		// epoch that arrive later cannot be opened any more, frames of the new
+		// epoch that arrive too early cannot be opened yet: both "not at all".
+		epochOf := func(orig int) int {
+			for i := 1; i <= orig; i++ {
+				if binary.BigEndian.Uint32(L[i][4:8]) < binary.BigEndian.Uint32(L[i-1][4:8]) {
+					return 1
+				}
+			}
+			return 0
+		}
+		rxEpoch := 0
 		mo := newC03Model()
 		desynced := false
 		consecutiveBad := 0
@@ -298,7 +313,18 @@ func TestC05(t *testing.T) {
 				continue
 			}
 			ok := false
-			if ch.orig >= 0 && bytes.Equal(ch.data, L[ch.orig]) {
+			if ch.orig >= 0 && bytes.Equal(ch.data, L[ch.orig]) && nearWrap && epochOf(ch.orig) != rxEpoch {
+				seq := binary.BigEndian.Uint32(ch.data[4:8])
+				if epochOf(ch.orig) > rxEpoch && mo.any && mo.newest >= 0xFFFF_FF00 && seq <= 255 {
+					// first frame of the next epoch the receiver can recognise: rollover
+					rxEpoch = 1
+					mo = newC03Model()
+					mo.accept(seq)
+					mustArrive[ch.orig] = true
+					ok = true
+				}
+				// otherwise: a frame of an epoch the receiver is not in - lost, by design
+			} else if ch.orig >= 0 && bytes.Equal(ch.data, L[ch.orig]) {
 				seq := binary.BigEndian.Uint32(ch.data[4:8])
 				switch mo.verdict(seq) {
 				case 1:
